@@ -64,6 +64,15 @@ def gen_one(rng, i, tier):
     if dtype == "int":
         pos = [float(round(x)) for x in pos]
         neg = [float(round(x)) for x in neg]
+    elif rng.random() < 0.12:
+        # float32 score arrays: every value is exactly representable, thresholds stay float64 (equal to a score, one
+        # float64 ulp off a score, not representable in float32)
+        dtype = "f4"
+        pos = [float(np.float32(x)) for x in pos]
+        neg = [float(np.float32(x)) for x in neg]
+        if ts:  # same number of thresholds (the shape is already chosen), now placed relative to the rounded scores
+            new = gen.thresholds(rng, pos, neg, k=len(ts) + 4)
+            ts = (new + ts)[:len(ts)]
     return {"stream": stream, "pos": pos, "neg": neg, "ep": ep, "en": en, "sc": sc, "ec": ec,
             "sorted": rng.random() < 0.3, "ts": ts, "shape": shape, "dtype": dtype,
             "via": rng.choice(["ctor", "ctor", "from_labels"]),
@@ -100,7 +109,7 @@ def build(inp) -> Case:
     inp = dict(inp)
     inp["ts"] = [common.unjson_num(x) for x in inp["ts"]]
     pos, neg = list(inp["pos"]), list(inp["neg"])
-    npdt = int if inp["dtype"] == "int" else float
+    npdt = {"int": int, "f4": np.float32}.get(inp["dtype"], float)
     srt = bool(inp["sorted"])
     if srt:  # caller's contract: arrays already sorted
         pos, neg = sorted(pos), sorted(neg)
